@@ -1386,14 +1386,56 @@ def kv_receivers(tree: ast.Module) -> dict:
                         raise TranslateError(f'Keyvalues.{fn.name}: unrecognised use of _value `{f}` (line {st.lineno})')
         walk(fn.body, None)
         return res
+    def canon(fn: ast.FunctionDef) -> ast.FunctionDef:
+        """Name-independent form of `+` / `+=`: the single-assignment local bound to `self.copy()` is called `copy`;
+        single-assignment locals bound to `copy._value` / `self._value` (aliases of the child list) and to a pure test
+        used as an `if` condition are replaced by their definition."""
+        import copy as _c
+        fn = _c.deepcopy(fn)
+        cnt = _assigned_names(fn)
+        fparams = {a.arg for a in fn.args.args + fn.args.kwonlyargs}
+        used = {n.id for n in ast.walk(fn) if isinstance(n, ast.Name)}
+        cvs = [st.targets[0].id for st in ast.walk(fn) if isinstance(st, ast.Assign) and len(st.targets) == 1
+               and isinstance(st.targets[0], ast.Name) and ast.unparse(st.value) == 'self.copy()'
+               and cnt.get(st.targets[0].id) == 1 and st.targets[0].id not in fparams]
+        if len(cvs) == 1 and cvs[0] != 'copy' and 'copy' not in used:
+            for n in ast.walk(fn):
+                if isinstance(n, ast.Name) and n.id == cvs[0]:
+                    n.id = 'copy'
+        alias: dict[str, ast.expr] = {}
+
+        def strip(body: list[ast.stmt]) -> list[ast.stmt]:
+            out = []
+            for st in body:
+                if isinstance(st, ast.Assign) and len(st.targets) == 1 and isinstance(st.targets[0], ast.Name) \
+                        and cnt.get(st.targets[0].id) == 1 and st.targets[0].id not in fparams \
+                        and (ast.unparse(st.value) in ('copy._value', 'self._value')
+                             or (_pure_test(st.value) and isinstance(st.value, (ast.BoolOp, ast.Compare, ast.UnaryOp, ast.Call))
+                                 and not ({n.id for n in ast.walk(st.value) if isinstance(n, ast.Name)} & set(cnt)))):
+                    alias[st.targets[0].id] = _Subst(alias).visit(st.value)
+                    continue
+                if isinstance(st, (ast.If, ast.For, ast.While, ast.With)):
+                    for fld in ('test', 'iter'):
+                        if hasattr(st, fld):
+                            setattr(st, fld, _Subst(alias).visit(getattr(st, fld)))
+                    st.body = strip(st.body)
+                    if getattr(st, 'orelse', None):
+                        st.orelse = strip(st.orelse)
+                    out.append(st)
+                else:
+                    out.append(_Subst(alias).visit(st) if alias else st)
+            return out
+        fn.body = strip(fn.body)
+        return ast.fix_missing_locations(fn)
+
     # what the public append()/extend() do with their argument (used when +/+= delegate to them)
     via: dict[str, bool] = {}
     for name in ('append', 'extend'):
-        sites = appends(normalise_fn(_method(cls, name), tree, cls), {})
+        sites = appends(canon(normalise_fn(_method(cls, name), tree, cls)), {})
         via[name] = bool(sites) and all(s[2] for s in sites)
     out['public_method_copies'] = via
     for name in ('__add__', '__iadd__', 'extend'):
-        fn = normalise_fn(_method(cls, name), tree, cls)
+        fn = canon(normalise_fn(_method(cls, name), tree, cls))
         sites = appends(fn, via)
         if name == 'extend':
             if len(sites) != 1:
